@@ -25,6 +25,7 @@ type Plan struct {
 	IncCap   int64 // Increase disabled once value >= IncCap
 	Floor    int64 // Decrease disabled once value <= Floor
 	Rem      bool
+	NilEmpty bool // hand the empty key to the tree as nil instead of []byte{}
 	MaxDepth int // 0 = to fixpoint
 	Probes   [][]byte
 
@@ -87,6 +88,11 @@ func (p *Plan) prepare() {
 			p.Ops = append(p.Ops, Op{K: "rem", Key: hk(k)})
 		}
 	}
+	if p.NilEmpty {
+		for i := range p.Ops {
+			p.Ops[i].Nil = p.Ops[i].Key == ""
+		}
+	}
 	p.Queries = append(append([][]byte{}, p.Keys...), p.Probes...)
 	// seed
 	w := freshWorld(p.M)
@@ -129,11 +135,15 @@ func sub(ks [][]byte, idx ...int) [][]byte {
 }
 
 // threeNodeSeed builds, with real Set/Remove calls, a level-1 layout  A | B | C  under one root in
-// which B holds exactly the alphabet keys a, a\0, ab, b and len(A)+len(C) < m, so that the search can
-// empty B and reach the sibling-merge path for large fan-outs (m >= 7) with the 8-key alphabet.
-// Fillers: "1%03d" (between "00" and "a") and "c%03d" (between "b" and 0xff); never touched by the search.
-func threeNodeSeed(m int) (ops []Op, fillers [][]byte) {
+// which B holds exactly the alphabet keys `mid` (all between "a" and "b") and len(A)+len(C) < m, so
+// that the search can empty B and reach the sibling-merge path for fan-outs where the 8-key alphabet
+// alone cannot build three siblings (m >= 5). Fillers: "1%03d" (between "00" and "a") and "c%03d"
+// (between "b" and 0xff); the search never touches them.
+func threeNodeSeed(m int, mid [][]byte) (ops []Op, fillers [][]byte) {
 	split := m/2 + 1
+	if split+len(mid) > m+1 {
+		panic("threeNodeSeed: fan-out too small for this middle node")
+	}
 	lo := func(i int) []byte { return []byte(fmt.Sprintf("1%03d", i)) }
 	hi := func(i int) []byte { return []byte(fmt.Sprintf("c%03d", i)) }
 	set := func(k []byte) { ops = append(ops, Op{K: "set", Key: hk(k), V: 3}) }
@@ -142,12 +152,12 @@ func threeNodeSeed(m int) (ops []Op, fillers [][]byte) {
 	for i := 1; i <= split-1; i++ {
 		set(lo(i))
 	}
-	for _, k := range [][]byte{[]byte("a"), []byte("a\x00"), []byte("ab"), []byte("b")} {
+	for _, k := range mid {
 		set(k)
 	}
-	// fill to m+1 children -> first split: A = first `split`, B' = [a, a\0, ab, b, c001..]
+	// fill to m+1 children -> first split: A = first `split`, B' = [mid..., c001..]
 	nh := 0
-	for n := split + 4; n < m+1; n++ {
+	for n := split + len(mid); n < m+1; n++ {
 		nh++
 		set(hi(nh))
 	}
@@ -156,8 +166,8 @@ func threeNodeSeed(m int) (ops []Op, fillers [][]byte) {
 		nh++
 		set(hi(nh))
 	}
-	// B = [a, a\0, ab, b, c001 .. c(split-4)] : drop its fillers
-	for i := 1; i <= split-4; i++ {
+	// B = [mid..., c001 .. c(split-len(mid))] : drop its fillers
+	for i := 1; i <= split-len(mid); i++ {
 		rem(hi(i))
 	}
 	// make room for a merge: drop two fillers from A and two from C
@@ -165,7 +175,7 @@ func threeNodeSeed(m int) (ops []Op, fillers [][]byte) {
 	rem(lo(2))
 	rem(hi(nh))
 	rem(hi(nh - 1))
-	fillers = [][]byte{lo(3), lo(split - 1), hi(split - 3), hi(nh - 2)}
+	fillers = [][]byte{lo(1), lo(split - 1), hi(split - len(mid) + 1), hi(nh - 2), hi(nh)}
 	return
 }
 
@@ -186,23 +196,35 @@ func plansFor(tier string) []*Plan {
 		}
 		ps = append(ps, p)
 	}
-	thorough := tier == "thorough"
-	for _, m := range []uint8{2, 3, 4, 5, 10, 255} {
-		if !thorough {
-			// shapes: all 8 keys, insert/overwrite with two values and remove
-			add(&Plan{Name: fmt.Sprintf("m%d/shapes8", m), M: m, Keys: keys8, SetVals: []int64{1, 5}, Rem: true})
-			// values: 3 keys, the full op alphabet
-			add(&Plan{Name: fmt.Sprintf("m%d/values3", m), M: m, Keys: sub(keys8, 0, 3, 5), SetVals: []int64{1, 5}, Inc: true, Dec: true, Rem: true})
-		} else {
-			add(&Plan{Name: fmt.Sprintf("m%d/shapes12", m), M: m, Keys: keys12, PerKey: true, Rem: true})
-			add(&Plan{Name: fmt.Sprintf("m%d/shapes8", m), M: m, Keys: keys8, SetVals: []int64{1, 5}, Rem: true})
-			add(&Plan{Name: fmt.Sprintf("m%d/values4", m), M: m, Keys: sub(keys8, 0, 2, 3, 6), SetVals: []int64{1, 5}, Inc: true, Dec: true, Rem: true})
-		}
-	}
-	for _, m := range []uint8{10, 255} {
-		seed, fill := threeNodeSeed(int(m))
-		add(&Plan{Name: fmt.Sprintf("m%d/three_nodes", m), M: m, SeedName: "three_nodes", Seed: seed, Keys: keys8, SetVals: []int64{1, 5}, Rem: true,
+	vals := []int64{1, 5}
+	mid4 := sub(keys8, 2, 3, 4, 5) // a, a\0, ab, b
+	mid3 := sub(keys8, 2, 3, 4)    // a, a\0, ab
+	seeded := func(name string, m uint8, mid, keys [][]byte) {
+		seed, fill := threeNodeSeed(int(m), mid)
+		add(&Plan{Name: fmt.Sprintf("m%d/%s", m, name), M: m, SeedName: fmt.Sprintf("three_nodes(%d)", len(mid)), Seed: seed, Keys: keys, PerKey: true, Rem: true,
 			Probes: append(append([][]byte{}, probes...), fill...)})
+	}
+	if tier != "thorough" {
+		// ---- quick: every plan closes in well under a minute
+		// m=2 trees over 8 keys reach 7 levels and > 10^5 stored shapes; quick uses 6 keys
+		add(&Plan{Name: "m2/shapes6", M: 2, Keys: sub(keys8, 0, 1, 2, 3, 5, 6), PerKey: true, Rem: true})
+		add(&Plan{Name: "m2/values3", M: 2, Keys: sub(keys8, 0, 3, 5), SetVals: vals, Inc: true, Dec: true, Rem: true})
+		for _, m := range []uint8{3, 4, 5, 10, 255} {
+			add(&Plan{Name: fmt.Sprintf("m%d/shapes8", m), M: m, Keys: keys8, PerKey: true, Rem: true})
+			add(&Plan{Name: fmt.Sprintf("m%d/values3", m), M: m, Keys: sub(keys8, 0, 3, 5), SetVals: vals, Inc: true, Dec: true, Rem: true})
+		}
+		seeded("three_nodes", 10, mid4, sub(keys8, 1, 2, 3, 4, 5, 6))
+		seeded("three_nodes", 255, mid4, sub(keys8, 2, 3, 4, 5, 6))
+		seeded("three_nodes", 5, mid3, sub(keys8, 1, 2, 3, 4, 5, 6))
+		// the empty key handed over as nil (what NewTree itself does) instead of []byte{}
+		add(&Plan{Name: "m3/shapes6nil", M: 3, Keys: sub(keys8, 0, 1, 2, 3, 5, 6), PerKey: true, Rem: true, NilEmpty: true})
+		return ps
+	}
+	// ---- thorough
+	for _, m := range []uint8{2, 3, 4, 5, 10, 255} {
+		add(&Plan{Name: fmt.Sprintf("m%d/shapes12", m), M: m, Keys: keys12, PerKey: true, Rem: true})
+		add(&Plan{Name: fmt.Sprintf("m%d/shapes8", m), M: m, Keys: keys8, SetVals: []int64{1, 5}, Rem: true})
+		add(&Plan{Name: fmt.Sprintf("m%d/values4", m), M: m, Keys: sub(keys8, 0, 2, 3, 6), SetVals: []int64{1, 5}, Inc: true, Dec: true, Rem: true})
 	}
 	return ps
 }
